@@ -1322,8 +1322,64 @@ fn c11_defer(input: &Input, obs: &mut Obs) -> Result<(), Fail> {
     Ok(())
 }
 
+/// rejected requests with many accepted header fields in front of their fault, one or several in
+/// a row, then well-formed requests that again have many fields: whatever the connection counts
+/// or collects per request starts from nothing after each rejection
+fn c11_fields(input: &Input, obs: &mut Obs) -> Result<(), Fail> {
+    let mut s = Src::new(input.bytes());
+    let mut stream = Vec::new();
+    let rejections = s.range(1, 4);
+    let mut rejected_fields = 0usize;
+    for r in 0..rejections {
+        let n = [3usize, 40, 90, 200, 254, 255, 256][s.below(7)];
+        stream.extend_from_slice([&b"GET /rej HTTP/1.1\r\n"[..], b"PUT /rej HTTP/1.0\r\n"][s.below(2)]);
+        for k in 0..n {
+            stream.extend_from_slice(format!("X-R{}-{}: {}\r\n", r, k, k).as_bytes());
+        }
+        rejected_fields += n;
+        stream.extend_from_slice([&b"nocolon\r\n"[..], b"Content-Length: x\r\n", b"Accept-Encoding: identity;q=0\r\n", b"X-Bad: \xff\r\n"][s.below(4)]);
+    }
+    let followers = s.range(1, 3);
+    let mut max_fields = 0;
+    for f in 0..followers {
+        let m = [0usize, 10, 56, 100, 200, 255, 256, 300][s.below(8)];
+        max_fields = max_fields.max(m);
+        let body = s.chance(128);
+        stream.extend_from_slice(if body { &b"PUT /ok HTTP/1.1\r\n"[..] } else { &b"GET /ok HTTP/1.1\r\n"[..] });
+        for k in 0..m {
+            stream.extend_from_slice(format!("X-F{}-{}: {}\r\n", f, k, k).as_bytes());
+        }
+        if body {
+            stream.extend_from_slice(b"Expect: 100-continue\r\nContent-Length: 4\r\n\r\nbody");
+        } else {
+            stream.extend_from_slice(b"\r\n");
+        }
+    }
+    let sizes = [1usize, 19, 100, 1024, 1024, 1024, 5000];
+    let plan: Vec<usize> = (0..32).map(|_| sizes[s.below(sizes.len())]).collect();
+    let mut i = 0usize;
+    let mut sch = |_consumed: usize, _total: usize, _window: usize| {
+        i += 1;
+        ReadEv::Data { want: plan[i % plan.len()], fds: vec![] }
+    };
+    let mut render = String::new();
+    let compared = c11_differential(&stream, None, &mut sch, obs, &mut render)?;
+    if rejected_fields + max_fields > 255 {
+        obs.label("more_than_255_fields_across_rejections_and_the_next_request");
+    }
+    if max_fields > 255 {
+        obs.label("more_than_255_fields_in_one_request");
+    }
+    obs.nontrivial = compared > 0;
+    obs.case_hash = Some(fnv64(input.bytes()));
+    if obs.want_render {
+        obs.render = format!("stream[{}]=\"{}\"\n{}", stream.len(), esc(&stream), render);
+    }
+    Ok(())
+}
+
 pub fn c11_conn_subs() -> Vec<(&'static str, SubFn)> {
-    vec![("ab", c11_ab), ("e2_32", c11_e2_32), ("raw", crate::props::raw::c11_raw), ("defer", c11_defer)]
+    vec![("ab", c11_ab), ("e2_32", c11_e2_32), ("raw", crate::props::raw::c11_raw), ("defer", c11_defer), ("fields", c11_fields)]
 }
 
 pub fn c11_conn_jobs(tier: Tier) -> Vec<Job> {
@@ -1331,6 +1387,7 @@ pub fn c11_conn_jobs(tier: Tier) -> Vec<Job> {
     vec![
         Job { sub: "ab", kind: JobKind::Pbt { cases: if q { 150_000 } else { 3_000_000 }, max_len: 1400 }, smallbuf: false },
         Job { sub: "ab", kind: JobKind::Pbt { cases: if q { 30_000 } else { 500_000 }, max_len: 900 }, smallbuf: true },
+        Job { sub: "fields", kind: JobKind::Pbt { cases: if q { 4_000 } else { 80_000 }, max_len: 80 }, smallbuf: false },
         Job { sub: "defer", kind: JobKind::Pbt { cases: if q { 3_000 } else { 60_000 }, max_len: 600 }, smallbuf: false },
         Job { sub: "defer", kind: JobKind::Pbt { cases: if q { 1_000 } else { 20_000 }, max_len: 600 }, smallbuf: true },
         Job { sub: "e2_32", kind: JobKind::Enum { f: c11_e2_32_enum, bound: "B=32: every error-ending stream of the piece family (cut at the decidable point, or whole) x 7 continuations x all cut pairs (quick: second cut inside the continuation)" }, smallbuf: true },
@@ -1345,6 +1402,18 @@ struct Pipe {
     wr: RawFd,
     tag: u32,
     handed: bool,
+    /// its owner (a delivered request) has dropped it during the run
+    released: bool,
+}
+
+struct CloseOnDrop(Vec<RawFd>);
+
+impl Drop for CloseOnDrop {
+    fn drop(&mut self) {
+        for d in &self.0 {
+            unsafe { libc::close(*d) };
+        }
+    }
 }
 
 fn mkpipe(tag: u32) -> Option<Pipe> {
@@ -1355,7 +1424,7 @@ fn mkpipe(tag: u32) -> Option<Pipe> {
     }
     let b = tag.to_le_bytes();
     unsafe { libc::write(fds[1], b.as_ptr() as *const libc::c_void, 4) };
-    Some(Pipe { rd: fds[0], wr: fds[1], tag, handed: false })
+    Some(Pipe { rd: fds[0], wr: fds[1], tag, handed: false, released: false })
 }
 
 fn fd_count() -> usize {
@@ -1432,7 +1501,9 @@ fn c12_ss(input: &Input, obs: &mut Obs) -> Result<(), Fail> {
             4 => Some(WriteEv::Zero),
             _ => Some(WriteEv::Accept(s.u16())),
         };
-        Some((ev, nf, C12Post { pop, write }))
+        let dummies = if s.chance(40) { s.range(1, 12) } else { 0 };
+        let release = if s.chance(30) { Some(s.u8() as usize) } else { None };
+        Some((ev, nf, C12Post { pop, write, dummies, release }))
     };
     let r = c12_core(&stream, &mut decide, obs);
     let npipes = r.as_ref().map(|n| *n).unwrap_or(0);
@@ -1453,10 +1524,16 @@ pub struct C12Post {
     /// pop at most this many queued requests now (usize::MAX: all)
     pub pop: usize,
     pub write: Option<WriteEv>,
+    /// descriptors opened just before this read's descriptors are created and closed right after:
+    /// the numbers of this read's descriptors are higher than those of later reads
+    pub dummies: usize,
+    /// the owner of an already delivered request lets go of its descriptors now (index drawn
+    /// from this value); their numbers become free for descriptors that arrive later
+    pub release: Option<usize>,
 }
 
 impl C12Post {
-    pub const ALL: C12Post = C12Post { pop: usize::MAX, write: None };
+    pub const ALL: C12Post = C12Post { pop: usize::MAX, write: None, dummies: 0, release: None };
 }
 
 fn c12_core(stream: &[u8], decide: &mut dyn FnMut(&ConnRun, usize) -> Option<(ReadEv, usize, C12Post)>, obs: &mut Obs) -> Result<usize, Fail> {
@@ -1480,6 +1557,11 @@ fn c12_core(stream: &[u8], decide: &mut dyn FnMut(&ConnRun, usize) -> Option<(Re
             let mut these: Vec<usize> = Vec::new();
             if nf > 0 {
                 if let ReadEv::Data { .. } | ReadEv::Eof { .. } = ev {
+                    let dummies: Vec<RawFd> = (0..post.dummies).map(|_| unsafe { libc::dup(2) }).filter(|d| *d >= 0).collect();
+                    if !dummies.is_empty() {
+                        obs.label("descriptor_numbers_not_increasing_across_reads");
+                    }
+                    let _close_dummies = CloseOnDrop(dummies);
                     for _ in 0..nf {
                         match mkpipe(next_tag) {
                             Some(p) => {
@@ -1589,6 +1671,22 @@ fn c12_core(stream: &[u8], decide: &mut dyn FnMut(&ConnRun, usize) -> Option<(Re
                     }
                 }
             }
+            // the owner of a delivered (and checked) request may let go of its descriptors
+            if let Some(sel) = post.release {
+                let cands: Vec<usize> = (0..run.kept.len()).filter(|k| !run.kept[*k].1.files.is_empty()).collect();
+                if !cands.is_empty() {
+                    let k = cands[sel % cands.len()];
+                    let tags = expected[k].clone();
+                    run.kept[k].1.files.clear();
+                    for p in pipes.iter_mut().filter(|p| tags.contains(&p.tag)) {
+                        p.released = true;
+                        if !read_end_closed(p.wr) {
+                            return Err(Fail::new("C12:copy-survives", format!("descriptor with tag {} is still open somewhere after the request that owned it dropped it", p.tag)));
+                        }
+                    }
+                    obs.label("delivered_descriptors_released_while_the_connection_lives_on");
+                }
+            }
             // no descriptor number held twice
             let mut nums: Vec<RawFd> = run.kept.iter().flat_map(|(_, r)| r.files.iter().map(|f| f.as_raw_fd())).collect();
             let n0 = nums.len();
@@ -1631,9 +1729,7 @@ fn c12_core(stream: &[u8], decide: &mut dyn FnMut(&ConnRun, usize) -> Option<(Re
             obs.label("descriptors_delivered");
         }
         // every delivered descriptor is still open while owned
-        for p in pipes.iter().filter(|p| p.handed) {
-            let owned_by_request = expected.iter().any(|e| e.contains(&p.tag));
-            let _ = owned_by_request;
+        for p in pipes.iter().filter(|p| p.handed && !p.released) {
             if read_end_closed(p.wr) {
                 return Err(Fail::new("C12:closed-early", format!("descriptor with tag {} was closed while its owner is alive", p.tag)));
             }
